@@ -118,7 +118,24 @@ func (w *vf07World) db(which string) *sql.DB {
 	return nil
 }
 
+// setPats configures the bind patterns: a new LDAP authenticator over the same storage.
+func (w *vf07World) setPats(kinds []string) (bool, error) {
+	pats, ok := vfldapsrv.Patterns(kinds)
+	if !ok {
+		return false, nil
+	}
+	authn, err := ldap.New(w.cluster.URLs(), pats, 1, w.cluster.RootCAs, w.state, w.state.logger)
+	if err != nil {
+		return true, err
+	}
+	w.state.passwordChecker = authn
+	return true, nil
+}
+
 func (w *vf07World) reset() error {
+	if _, err := w.setPats([]string{"e"}); err != nil {
+		return err
+	}
 	w.cluster.Reset()
 	w.cluster.SetPassword("alice", vf07Password(1), true)
 	w.cluster.SetPassword("bob", vf07Password(2), true)
@@ -363,6 +380,10 @@ func vf07Worker(t *testing.T, lines []string) (out []string) {
 		case f[0] == "seq" && len(f) == 2:
 			opErr = w.reset()
 			started = true
+		case f[0] == "pats":
+			var ok bool
+			ok, opErr = w.setPats(f[1:])
+			bad = !ok
 		case f[0] == "login" && len(f) == 4:
 			u, ok1 := atoi(f[1])
 			pw, ok2 := atoi(f[2])
